@@ -15,19 +15,21 @@ Rec == ndJsonDeserialize(IOEnv.TRACE)
 
 Objs == 0..7
 
-VARIABLES st, l
-vars == <<st, l>>
+VARIABLES st, l, hl
+vars == <<st, l, hl>>
 
-TraceInit == st = [o \in Objs |-> NoState] /\ l = 1
+NoHullRec == [some |-> FALSE]
+
+TraceInit == st = [o \in Objs |-> NoState] /\ l = 1 /\ hl = [o \in Objs |-> NoHullRec]
 
 Ev    == Rec[l]
 IsEvent(e) == l <= Len(Rec) /\ Rec[l].ev = e /\ l' = l + 1
               /\ Chk("C19.panic", ~Rec[l].panic)
               /\ Chk("C19.timeout", ~Rec[l].timeout)
 
-SetObj(o, S) == st' = [st EXCEPT ![o] = S]
+SetObj(o, S) == st' = [st EXCEPT ![o] = S] /\ UNCHANGED hl
 
-TReset == IsEvent("Reset") /\ st' = [o \in Objs |-> NoState]
+TReset == IsEvent("Reset") /\ st' = [o \in Objs |-> NoState] /\ hl' = [o \in Objs |-> NoHullRec]
 
 TConstruct ==
   /\ IsEvent("Construct")
@@ -66,7 +68,7 @@ TVerdicts ==
   /\ IsEvent("Verdicts")
   /\ st[Ev.obj].live
   /\ Verdicts(st[Ev.obj], Ev.res)
-  /\ UNCHANGED st
+  /\ UNCHANGED <<st, hl>>
 
 \* an empty triangulation object created by empty()/with_empty_kernel...
 TEmpty ==
@@ -81,9 +83,59 @@ TSetPolicy ==
          ObsVerts(Ev.post) = ObsVerts(st[Ev.obj]) /\ ObsCells(Ev.post) = ObsCells(st[Ev.obj]))
   /\ SetObj(Ev.obj, Ev.post)
 
+TLocate ==
+  /\ IsEvent("Locate")
+  /\ st[Ev.obj].live
+  /\ Locate(st[Ev.obj], Ev.res)
+  /\ UNCHANGED <<st, hl>>
+
+THullCreate ==
+  /\ IsEvent("HullCreate")
+  /\ st[Ev.obj].live
+  /\ \/ /\ Ev.res.kind = "Ok"
+        /\ HullCreateOK(st[Ev.obj], Ev.res)
+        /\ hl' = [hl EXCEPT ![Ev.obj] = [some |-> TRUE, facets |-> Ev.res.facets,
+                                         at |-> [cells |-> ObsCells(st[Ev.obj]), verts |-> ObsVerts(st[Ev.obj])]]]
+     \/ /\ Ev.res.kind = "Err"
+        /\ Chk("C11.hull refused for a triangulation with cells", Len(st[Ev.obj].cells) = 0)
+        /\ hl' = [hl EXCEPT ![Ev.obj] = NoHullRec]
+  /\ UNCHANGED st
+
+THullQuery ==
+  /\ IsEvent("HullQuery")
+  /\ st[Ev.obj].live /\ hl[Ev.obj].some
+  /\ HullQuery(st[Ev.obj], hl[Ev.obj], Ev.res)
+  /\ UNCHANGED <<st, hl>>
+
+TQueries ==
+  /\ IsEvent("Queries")
+  /\ st[Ev.obj].live
+  /\ Queries(st[Ev.obj], Ev.res)
+  /\ UNCHANGED <<st, hl>>
+
+TClone ==
+  /\ IsEvent("Clone")
+  /\ st[Ev.args.src].live
+  /\ CloneOK(st[Ev.args.src], Ev.res, Ev.post)
+  /\ SetObj(Ev.obj, Ev.post)
+
+TSerDe ==
+  /\ IsEvent("SerDe")
+  /\ st[Ev.args.src].live
+  /\ \/ Ev.res.kind = "Ok" /\ SerDeOK(st[Ev.args.src], Ev.res, Ev.post)
+     \/ Ev.res.kind = "Err" /\ Chk("C13.round trip of a library-produced triangulation refused", FALSE)
+  /\ SetObj(Ev.obj, Ev.post)
+
+TCompare ==
+  /\ IsEvent("Compare")
+  /\ st[Ev.obj].live /\ st[Ev.args.other].live
+  /\ CompareOK(st[Ev.obj], st[Ev.args.other])
+  /\ UNCHANGED <<st, hl>>
+
 TraceNext ==
   \/ TReset \/ TConstruct \/ TInsert \/ TRemove \/ TFlip \/ TRepair \/ TVerdicts
-  \/ TEmpty \/ TSetPolicy
+  \/ TEmpty \/ TSetPolicy \/ TLocate \/ THullCreate \/ THullQuery \/ TQueries
+  \/ TClone \/ TSerDe \/ TCompare
 
 TraceSpec == TraceInit /\ [][TraceNext]_vars
 
